@@ -70,6 +70,7 @@ def parseDir : String → Option Bool
 def parseFill (s : String) : Option Fill :=
   match s with
   | "-" => some .none | "none" => some .none | "null" => some .null | "previous" => some .previous
+  | "linear" => some .linear
   | _ => s.toInt?.map Fill.number
 
 def parseCall (s : String) : Option (Fn × Col) :=
@@ -175,6 +176,10 @@ def showRowAmb (r m : OutRow) : String :=
 
 /-- canonical answer of a statement. -/
 def answer (q : Query) (db : Db) : String :=
+  -- statements outside the subset whose answer the executor makes depend on the configuration
+  -- (known findings): a fixed marker on both sides, the harness reports the differing answers
+  if !q.agg && q.limit == 0 && q.offset != 0 then "ans ?offset-without-limit" else
+  if q.agg && q.interval != 0 && q.fill == .linear then "ans ?fill-linear" else
   let rows := db.filter q.keep
   let keys := distinctSorted (rows.map (fun r => groupKey q.grp r.s))
   let keys := if q.asc then keys else keys.reverse
